@@ -55,6 +55,13 @@ class Gen:
         self.sent_cer = set()
         self.n_accept = 0
         self.stalled = set()
+        self.outstanding = []   # (cid, hbh, e2e) requests the node sent on behalf of an application
+        self.answered_out = []  # those already answered (for duplicates)
+        self.dpr_out = []       # (cid, hbh, e2e) DPRs the node sent
+        self.stopped = False
+        self.after_stop = 0
+        self.stop_immediate = False
+        self.n_req = 0
 
     def ids(self):
         self.next_hbh += 1
@@ -69,6 +76,32 @@ class Gen:
             w = self.w.get(weight_key, 0)
             if w > 0:
                 opts.append((w, fn))
+        if self.stopped:
+            # shutdown phase: everything happens at the instant of the stop() call; the final stop_finish event lets
+            # the clock run until stop() returns
+            self.after_stop += 1
+            if self.after_stop > 5 or self.stop_immediate:
+                return None
+            if self.n_accept < 7:
+                add("accept", self.ev_accept)
+            for cid, c in live.items():
+                if c[2] in (2, 3, 4):
+                    add("request", lambda cid=cid, c=c: self.ev_request(cid, c))
+                    add("dwr", lambda cid=cid, c=c: self.ev_base(cid, c, "dwr"))
+                add("close", lambda cid=cid: dict(ev="close", cid=cid))
+            if self.dpr_out:
+                add("dpa_for_dpr", self.ev_dpa_for_dpr)
+            if self.delivered:
+                add("app_answer", self.ev_app_answer)
+            if not opts:
+                return None
+            total = sum(w for w, _ in opts)
+            x = rng.random() * total
+            for w, fn in opts:
+                x -= w
+                if x <= 0:
+                    return fn()
+            return opts[-1][1]()
         if len(live) < 3 and self.n_accept < 6:
             add("accept", self.ev_accept)
         for cid, c in live.items():
@@ -101,6 +134,16 @@ class Gen:
             add("stall", lambda cid=cid: dict(ev="stall", cid=cid, on=rng.random() < 0.5))
         if self.delivered:
             add("app_answer", self.ev_app_answer)
+        if self.cfg["apps"] and self.n_req < 8 and not self.stopped:
+            add("app_request", self.ev_app_request)
+        if self.outstanding:
+            add("answer_request", self.ev_answer_request)
+        if self.answered_out or self.outstanding:
+            add("odd_answer", self.ev_odd_answer)
+        if self.dpr_out:
+            add("dpa_for_dpr", self.ev_dpa_for_dpr)
+        if not self.stopped:
+            add("stop", self.ev_stop)
         add("bad_app_answer", self.ev_bad_app_answer)
         add("tick", self.ev_tick)
         if not opts:
@@ -290,6 +333,51 @@ class Gen:
             wire = NS.build_message(dict(kind="req", hbh=h, e2e=e))
         return dict(ev="app_answer", app=0, msg=self.make_answer(wire))
 
+    def ev_app_request(self):
+        from diameter.message.commands import CreditControlRequest
+        rng = self.rng
+        self.n_req += 1
+        m = CreditControlRequest()
+        m.session_id = "out;%d" % self.n_req
+        m.origin_host = self.cfg["host"].encode()
+        m.origin_realm = self.cfg["realm"].encode()
+        r = rng.random()
+        if r < 0.7:
+            m.destination_realm = self.cfg["realm"].encode()
+        elif r < 0.85:
+            m.destination_realm = b"other.example.org"
+        else:
+            m.destination_realm = b"nowhere.example.com"
+        m.service_context_id = "ctx"
+        m.cc_request_type = 1
+        m.cc_request_number = 0
+        return dict(ev="app_request", app=rng.randrange(len(self.cfg["apps"])), msg=m, pick=rng.randrange(4),
+                    timeout=rng.choice([3, 5, 30, 60]))
+
+    def ev_answer_request(self):
+        cid, h, e = self.outstanding.pop(self.rng.randrange(len(self.outstanding)))
+        self.answered_out.append((cid, h, e))
+        return dict(ev="recv", cid=cid, frames=[NS.build_message(dict(kind="ans", hbh=h, e2e=e))])
+
+    def ev_odd_answer(self):
+        rng = self.rng
+        pool = self.answered_out + self.outstanding
+        cid, h, e = rng.choice(pool)
+        k = rng.choice(["duplicate", "wrong_e2e", "other_conn"])
+        if k == "duplicate" and (cid, h, e) in self.outstanding:
+            k = "wrong_e2e"
+        if k == "wrong_e2e":
+            e = e + 100000
+        return dict(ev="recv", cid=cid, frames=[NS.build_message(dict(kind="ans", hbh=h, e2e=e))])
+
+    def ev_dpa_for_dpr(self):
+        cid, h, e = self.dpr_out.pop(0)
+        return dict(ev="recv", cid=cid, frames=[NS.build_message(dict(kind="dpa", hbh=h, e2e=e))])
+
+    def ev_stop(self):
+        self.stopped = True
+        return dict(ev="stop", force=self.rng.random() < 0.25, timeout=self.rng.choice([2, 5, 20, 180]))
+
     def ev_tick(self):
         rng = self.rng
         dt = rng.choice([1, 1, 2, 3, 5, 6, 7, 10, 13, 30, 31])
@@ -298,7 +386,22 @@ class Gen:
         dials = [(rng.randrange(1, 2 ** 32 - 10), rng.choice(["DialOk", "DialRefused", "DialInProgress"])) for _ in range(nd)]
         return dict(ev="tick", dt=dt, dials=dials)
 
+    def note_sends(self, obs):
+        for cid, ms in obs["sends"].items():
+            for m_ in ms:
+                if m_["req"] and m_["cmd"].startswith("App"):
+                    self.outstanding.append((cid, m_["hbh"], m_["e2e"]))
+                if m_["req"] and m_["cmd"] == "DP":
+                    self.dpr_out.append((cid, m_["hbh"], m_["e2e"]))
+        for cid in obs["closed"]:
+            self.outstanding = [x for x in self.outstanding if x[0] != cid]
+            self.dpr_out = [x for x in self.dpr_out if x[0] != cid]
+
     def note(self, ev, obs):
+        self.note_sends(obs)
+        if ev["ev"] == "stop":
+            # a forced stop, or one with no connection to wait for, sets the I/O thread's stop flag at once
+            self.stop_immediate = ev["force"] or not obs["snap"]["conns"]
         for (app, h, e) in obs["delivered"]:
             cid = ev.get("cid")
             wire = next((w for (hh, ee, w) in self.pending.get(cid, []) if hh == h and ee == e), None)
@@ -321,12 +424,16 @@ def run_random(seed, profile, weights, length):
         obs.append(o)
         for _ in range(length):
             ev = g.choose(o["snap"], o)
+            if ev is None:
+                break
             if "dials" not in ev:
                 npers = len([p for p in cfg["peers"] if p["persistent"]])
                 ev["dials"] = [(rng.randrange(1, 2 ** 32 - 10), rng.choice(["DialOk", "DialRefused", "DialInProgress"])) for _ in range(2 * npers)]
             if ev["ev"] in ("recv", "close", "readerr", "stall", "conndone") and ev["cid"] >= len(r.remotes):
                 continue
             if ev["ev"] == "conndone" and (r.remotes[ev["cid"]].state != "connecting" or ev["cid"] in g.stalled):
+                continue
+            if ev["ev"] in ("recv", "close", "readerr") and r.remotes[ev["cid"]].closed_by_node:
                 continue
             if ev["ev"] == "stall":
                 c = next((x for x in o["snap"]["conns"] if x[0] == ev["cid"]), None)
@@ -339,6 +446,11 @@ def run_random(seed, profile, weights, length):
             obs.append(o)
             for cid, rem in enumerate(r.remotes):
                 g.dir[cid] = rem.direction
+        if g.stopped:
+            ev = dict(ev="stop_finish", dials=[])
+            o = r.apply(ev)
+            events.append(ev)
+            obs.append(o)
     finally:
         r.shutdown()
     return cfg, events, obs
